@@ -142,7 +142,7 @@ def _walk(e):
 # key tables of the disk engine (PRIMARY KEY on a, not enforced unique): scans are ordered by the key, which is
 # only a prefix of what these queries need (order analysis: useless-order, sort-agg, merge-join rules)
 PK_DATA = {"t1": [[1, 3, "a"], [1, 1, "b"], [2, 2, "a"], [1, 3, "c"], [2, 1, ""], [1, 2, "a"], [3, 0, None], [2, 2, "b"], [1, 1, "a"]],
-           "t2": [[1, 1, "x"], [2, 2, "y"], [1, 3, "z"], [2, 5, "y"], [1, 1, "w"]],
+           "t2": [[1, 1, "x"], [2, 2, "y"], [1, 3, "z"], [2, 5, "y"], [1, 1, "w"], [7, 1, "q"]],
            "t3": [[1, 1], [2, 2], [1, 3], [2, 1]]}
 
 
@@ -172,4 +172,21 @@ def cases():
             out.append({"db": {t: [list(r) for r in rows] for t, rows in db.items()}, "q": q, "sql": G.sql_query(q), "pk": False})
     for q in pk_family():
         out.append({"db": {t: [list(r) for r in rows] for t, rows in PK_DATA.items()}, "q": q, "sql": G.sql_query(q), "pk": True})
+    # the outer-join filters again over key tables (column a is NOT NULL there: what holds for a base column does
+    # not hold for the same column on the NULL-padded side of an outer join)
+    t = lambda name, al: ("t", name, al)
+    on1 = B("=", C("x1", "a"), C("x2", "a"))
+    for jt, l, r in (("left", "t1", "t2"), ("left", "t2", "t1"), ("full", "t1", "t3")):
+        if jt == "full":
+            continue                      # FULL / RIGHT joins: recorded finding Q1
+        for p in (ISN(C("x2", "a")), ISN(C("x2", "a"), True), OR(ISN(C("x2", "a")), B(">", C("x1", "b"), K(2))),
+                  B("=", ("case", ISN(C("x2", "a")), K(1), K(0), INT), K(1))):
+            for sel, extra in (([(C("x1", "a"), "c1"), (C("x1", "b"), "c2"), (C("x2", "a"), "c3")], {}),
+                               ([(("agg", "count*"), "c1"), (("agg", "count", C("x2", "a"), INT), "c2")], {"agg": True})):
+                q = dict(BASE, sel=sel, frm=("join", jt, t(l, "x1"), t(r, "x2"), on1), where=p, **extra)
+                out.append({"db": {tt: [list(rr) for rr in rows] for tt, rows in PK_DATA.items()}, "q": q,
+                            "sql": G.sql_query(q), "pk": True})
+        q = dict(BASE, sel=[(C("x1", "a"), "c1"), (ISN(C("x2", "a")), "c2"), (ISN(C("x2", "b")), "c3")],
+                 frm=("join", jt, t(l, "x1"), t(r, "x2"), on1))
+        out.append({"db": {tt: [list(rr) for rr in rows] for tt, rows in PK_DATA.items()}, "q": q, "sql": G.sql_query(q), "pk": True})
     return out
